@@ -56,6 +56,7 @@ func (x *Exec) call(fr *Frame, st *State, ci ssa.CallInstruction) []string {
 			name, idxVal = elemCallName(ci.Common())
 		}
 		if effs, ok := hc.OnCall[name]; ok && name != "" {
+			x.hookFired[hc.Key+"|"+name] = true
 			bind := map[string]specVal{}
 			if idxVal != nil {
 				bind["idx"] = specVal{term: x.val(fr, st, idxVal), typ: tInt}
